@@ -332,6 +332,9 @@ def csv_array_case(rng, tier):
 def csv_sep_case(rng, tier):
     """setSeparator / setDecimal before writing: ';' with '.', ';' with ',' (the pair the reader assumes), tab with '.'"""
     sep, dec = rng.choice([(59, 46), (59, 46), (59, 44), (9, 46)])
+    # 1 case in 8 keeps strings that spell a number with '.' or ',' ("1,5", ",0", "1,"): they come back as numbers under the
+    # reader's documented decimal inference (outside_findings.txt); model and library must still agree, the python oracle abstains
+    allow_numlike = rng.random() < 0.125
     names, cells, _ = gen_table(rng, tier, False)
     while len(names) < 2:       # one-column files with a non-default separator: outside (outside_findings.txt), nothing to sniff
         names, cells, _ = gen_table(rng, tier, False)
@@ -341,10 +344,17 @@ def csv_sep_case(rng, tier):
         if c.startswith("s:"):
             s = unhex(c[2:])
             # a string that spells a number with either decimal symbol comes back as a number: excluded as for ','
-            if NUMLIKE.match(s.replace(b",", b".")) or b"\t" in s:
+            sd = s.replace(b",", b".")
+            if b"\t" in s:
                 c = "s:" + hexs(b"x" + s.replace(b"\t", b" "))
+            elif NUMLIKE.match(sd) and not (allow_numlike and s.count(b",") + s.count(b".") <= 1 and numlike_in_range(sd)):
+                c = "s:" + hexs(b"x" + s)
         fixed.append(c)
     cells = fixed
+    if allow_numlike:
+        for j in range(len(cells)):
+            if cells[j].startswith("s:") and rng.random() < 0.3:
+                cells[j] = "s:" + hexs(rng.choice([b"1,5", b",0", b"1,", b"-2,5e3", b"1.5", b"7"]))
     if rng.random() < 0.3 and n > 0:
         rows = [cells[i:i + n] for i in range(0, len(cells) - len(cells) % n, n)][:10]
         cells = []
@@ -615,6 +625,8 @@ def reference(line):
             t = [t[0]] + t[3:]
             if int(t[1]) == 1:
                 return None      # a one-column file contains no separator the reader could recognise
+            if any(x.startswith("s:") and NUMLIKE.match(unhex(x[2:]).replace(b",", b".")) for x in t[2 + int(t[1]):]):
+                return None      # a string that spells a number under either decimal symbol: format ambiguity
             op = "tabw" if op == "tabws" else "tabrt"
         if op == "tabrt":
             names, rows, _ = table_expected(t)
